@@ -12,60 +12,7 @@ use std::collections::VecDeque;
 
 include!("common.rs");
 
-const OUT: usize = 96;
-
-/// byte sink for the oracle and for the flattened step list
-struct Sink { b: [u8; OUT], n: usize }
-impl Sink {
-    fn new() -> Sink { Sink { b: [0; OUT], n: 0 } }
-    fn u8(&mut self, v: u8) { self.b[self.n] = v; self.n += 1; }
-    fn u16(&mut self, v: u16) { self.u8((v >> 8) as u8); self.u8(v as u8); }
-    fn u32(&mut self, v: u32) { self.u16((v >> 16) as u16); self.u16(v as u16); }
-    /// Variable Byte Integer (MQTT 1.5.5): 7 data bits per byte, least significant group first, continuation bit 0x80
-    fn vbi(&mut self, v: u32) {
-        if v < 128 { self.u8(v as u8); }
-        else if v < 16384 { self.u8((v & 127) as u8 | 128); self.u8((v >> 7) as u8); }
-        else if v < 2097152 { self.u8((v & 127) as u8 | 128); self.u8(((v >> 7) & 127) as u8 | 128); self.u8((v >> 14) as u8); }
-        else { self.u8((v & 127) as u8 | 128); self.u8(((v >> 7) & 127) as u8 | 128); self.u8(((v >> 14) & 127) as u8 | 128); self.u8((v >> 21) as u8); }
-    }
-    fn bytes(&mut self, s: &[u8]) { let mut i = 0; while i < s.len() { self.u8(s[i]); i += 1; } }
-    fn lp(&mut self, s: &[u8]) { self.u16(s.len() as u16); self.bytes(s); }
-}
-
-fn vbi_len(v: usize) -> usize { if v < 128 { 1 } else if v < 16384 { 2 } else if v < 2097152 { 3 } else { 4 } }
-
-/// Flattens a step list WITHOUT the real step processor (that one is verified per step kind in c02_step_*): fixed-width steps
-/// become big-endian bytes, Vli the VBI, slice steps the bytes their accessor returns for this packet from the recorded offset.
-fn flatten(steps: &mut VecDeque<EncodingStep>, packet: &MqttPacket, out: &mut Sink, max_steps: usize) {
-    let mut guard = 0;
-    while let Some(step) = steps.pop_front() {
-        match step {
-            EncodingStep::Uint8(v) => out.u8(v),
-            EncodingStep::Uint16(v) => out.u16(v),
-            EncodingStep::Uint32(v) => out.u32(v),
-            EncodingStep::Vli(v) => { assert!(v <= 268_435_455); out.vbi(v) }
-            EncodingStep::StringSlice(g, off) => { assert!(off == 0); out.bytes(g(packet).as_bytes()) }
-            EncodingStep::BytesSlice(g, off) => { assert!(off == 0); out.bytes(g(packet)) }
-            EncodingStep::IndexedString(g, i, off) => { assert!(off == 0); out.bytes(g(packet, i).as_bytes()) }
-            EncodingStep::UserPropertyName(g, i, off) => { assert!(off == 0); out.bytes(g(packet, i).name.as_bytes()) }
-            EncodingStep::UserPropertyValue(g, i, off) => { assert!(off == 0); out.bytes(g(packet, i).value.as_bytes()) }
-        }
-        guard += 1;
-        if guard >= max_steps { break; }
-    }
-    assert!(steps.is_empty());
-}
-
-fn same(a: &Sink, b: &Sink) -> bool {
-    if a.n != b.n { return false; }
-    let mut i = 0;
-    while i < OUT { if i < a.n && a.b[i] != b.b[i] { return false; } i += 1; }
-    true
-}
-
-fn ascii2() -> [u8; 2] { let b: [u8; 2] = kani::any(); kani::assume(b[0] < 0x80 && b[1] < 0x80); b }
-fn s_of(b: &[u8]) -> String { unsafe { String::from_utf8_unchecked(b.to_vec()) } }
-fn qos_of(q: u8) -> QualityOfService { match q { 0 => QualityOfService::AtMostOnce, 1 => QualityOfService::AtLeastOnce, _ => QualityOfService::ExactlyOnce } }
+include!("encode_common.rs");
 
 // ------------------------------------------------------------------------------------------------
 // H1 variable byte integers
@@ -216,84 +163,3 @@ fn c02_step_slices() {
     std::mem::forget(r); std::mem::forget(dest); std::mem::forget(steps); std::mem::forget(packet);
 }
 
-// ------------------------------------------------------------------------------------------------
-// H3 whole packets: real write_*_encoding_steps, flattened, against the specification layout
-// ------------------------------------------------------------------------------------------------
-
-fn ctx(v: ProtocolVersion, res: OutboundAliasResolution) -> EncodingContext { EncodingContext { outbound_alias_resolution: res, protocol_version: v } }
-
-/// alias resolution outcome: 0 = none, 1 = alias with topic, 2 = alias, topic skipped
-fn publish5_body(amode: u8, with_props: bool, with_payload: bool) {
-    let t = ascii2();
-    let q: u8 = kani::any();
-    kani::assume(q < 3);
-    let pid: u16 = kani::any();
-    let (dup, retain): (bool, bool) = (kani::any(), kani::any());
-    let alias: u16 = kani::any();
-    let pl: [u8; 2] = kani::any();
-    let (ct, rt, cd, un, uv) = (ascii2(), ascii2(), kani::any::<[u8; 2]>(), ascii2(), ascii2());
-    let mei: u32 = kani::any();
-    let pfi: bool = kani::any();
-    let inner = PublishPacket {
-        topic: s_of(&t), qos: qos_of(q), packet_id: pid, duplicate: dup, retain,
-        payload: if with_payload { Some(pl.to_vec()) } else { None },
-        payload_format: if with_props { Some(if pfi { PayloadFormatIndicator::Utf8 } else { PayloadFormatIndicator::Bytes }) } else { None },
-        message_expiry_interval_seconds: if with_props { Some(mei) } else { None },
-        response_topic: if with_props { Some(s_of(&rt)) } else { None },
-        correlation_data: if with_props { Some(cd.to_vec()) } else { None },
-        content_type: if with_props { Some(s_of(&ct)) } else { None },
-        user_properties: if with_props { Some(vec![UserProperty { name: s_of(&un), value: s_of(&uv) }]) } else { None },
-        ..Default::default()
-    };
-    let res = match amode { 0 => OutboundAliasResolution { skip_topic: false, alias: None }, 1 => OutboundAliasResolution { skip_topic: false, alias: Some(alias) },
-                            _ => OutboundAliasResolution { skip_topic: true, alias: Some(alias) } };
-    let c = ctx(ProtocolVersion::Mqtt5, res);
-    let mut steps: VecDeque<EncodingStep> = VecDeque::new();
-    let r = crate::mqtt::publish::write_publish_encoding_steps5(&inner, &c, &mut steps);
-    assert!(r.is_ok());
-    let packet = MqttPacket::Publish(inner);
-    let mut got = Sink::new();
-    flatten(&mut steps, &packet, &mut got, 40);
-    // oracle: MQTT5 3.3
-    let mut props = Sink::new();
-    if with_props { props.u8(1); props.u8(if pfi { 1 } else { 0 }); props.u8(2); props.u32(mei); }
-    if amode != 0 { props.u8(35); props.u16(alias); }
-    if with_props { props.u8(8); props.lp(&rt); props.u8(9); props.lp(&cd); props.u8(3); props.lp(&ct); props.u8(38); props.lp(&un); props.lp(&uv); }
-    let mut body = Sink::new();
-    if amode == 2 { body.u16(0); } else { body.lp(&t); }
-    if q > 0 { body.u16(pid); }
-    body.vbi(props.n as u32);
-    body.bytes(&props.b[..props.n]);
-    if with_payload { body.bytes(&pl); }
-    let mut want = Sink::new();
-    want.u8(0x30 | (if dup { 8 } else { 0 }) | (q << 1) | (if retain { 1 } else { 0 }));
-    want.vbi(body.n as u32);
-    want.bytes(&body.b[..body.n]);
-    kani::cover!(q == 2 && dup && retain, "all fixed-header flags set");
-    assert!(same(&got, &want));
-    std::mem::forget(r); std::mem::forget(steps); std::mem::forget(packet);
-}
-
-// @gv props=C02,C17 tier=quick required=yes fns=write_publish_encoding_steps5,compute_publish_packet_length_properties5,compute_publish_fixed_header_first_byte
-// @gv bounds="PUBLISH/MQTT5, no alias, all optional properties present (payload format, expiry, response topic, correlation data, content type, one user property; strings of 2 symbolic bytes), 2-byte payload; symbolic QoS, id, DUP, retain"
-// @gv timeout=1200 mem=12
-#[kani::proof]
-#[kani::unwind(45)]
-#[kani::stub(std::fmt::format, stub_format)]
-fn c02_publish5_full() { publish5_body(0, true, true) }
-
-// @gv props=C02,C17 tier=quick required=yes fns=write_publish_encoding_steps5,compute_publish_packet_length_properties5
-// @gv bounds="PUBLISH/MQTT5, alias resolved and topic SKIPPED (empty topic + alias property), no other property, 2-byte payload; symbolic QoS, id, flags, alias"
-// @gv timeout=1200 mem=12
-#[kani::proof]
-#[kani::unwind(45)]
-#[kani::stub(std::fmt::format, stub_format)]
-fn c02_publish5_alias_skip() { publish5_body(2, false, true) }
-
-// @gv props=C02,C17 tier=quick required=yes fns=write_publish_encoding_steps5,compute_publish_packet_length_properties5
-// @gv bounds="PUBLISH/MQTT5, alias announced together with the topic, no other property, NO payload (must equal the empty payload)"
-// @gv timeout=1200 mem=12
-#[kani::proof]
-#[kani::unwind(45)]
-#[kani::stub(std::fmt::format, stub_format)]
-fn c02_publish5_alias_bind_nopayload() { publish5_body(1, false, false) }
